@@ -246,6 +246,7 @@ func init() {
 			More: [][2]string{{"\t\t\tif _, ok := lm[rt.Field(i).Name[1:]]; !ok {\n", "\t\t\tif n.typ.getMethod(rt.Field(i).Name[1:]) == nil {\n"}}, Rule: "R05.5", Key: "getWrapper/selection-on-method-set"},
 		mutant{Name: "relative-import-normalises-a-copy-of-the-root", Prop: "C16", File: "interp/src.go", Old: "\t\tif rPath == mainID {\n\t\t\trPath = \".\"\n\t\t}\n\t\tdir = filepath.Join(filepath.Dir(interp.name), rPath, importPath)\n", New: "\t\tbase := rPath\n\t\tif base == mainID {\n\t\t\tbase = \".\"\n\t\t}\n\t\tdir = filepath.Join(filepath.Dir(interp.name), base, importPath)\n", Rule: "R16.1", Key: "importSrc/relative-branch/root-handed-on"},
 		mutant{Name: "name-rule-splits-the-whole-name", Prop: "C17", File: "interp/build.go", Old: "\ta := strings.Split(p[i+1:], \"_\")\n\tlast := len(a) - 1\n\tif last-1 >= 0 {\n", New: "\ta := strings.Split(p, \"_\")\n\tlast := len(a) - 1\n\tif last-1 >= 1 {\n", Rule: "R17.7", Key: "skipFile/prefix-is-not-a-constraint"},
+		mutant{Name: "negated-comparison-folded-into-its-operand", Prop: "C02", File: "interp/cfg.go", Old: "\t\t\tcase n.rval.IsValid():\n\t\t\t\tn.gen = nop\n\t\t\t\tn.findex = notInFrame\n\t\t\tcase n.anc.kind == assignStmt && n.anc.action == aAssign && n.anc.nright == 1:\n", New: "\t\t\tcase n.rval.IsValid():\n\t\t\t\tn.gen = nop\n\t\t\t\tn.findex = notInFrame\n\t\t\tcase n.action == aNot && n.child[0].action == aLower:\n\t\t\t\tn.child[0].action = aGreaterEqual\n\t\t\t\tn.child[0].gen = greaterEqual\n\t\t\t\tn.gen = nop\n\t\t\t\tn.findex = n.child[0].findex\n\t\t\tcase n.anc.kind == assignStmt && n.anc.action == aAssign && n.anc.nright == 1:\n", Rule: "R02.9", Key: "Interpreter.cfg/operator-action-rewritten:aGreaterEqual"},
 		// ---- C18
 		mutant{Name: "var-bound-by-value-in-generator", Prop: "C18", File: "extract/extract.go", Old: "\t\t\tval[name] = Val{pname, true}", New: "\t\t\tval[name] = Val{pname, false}", Rule: "R18.2", Key: "genContent/addr-only-for-vars"},
 		mutant{Name: "template-forwards-wrong-field", Prop: "C18", File: "extract/extract.go", Old: "\t\t\t{{- $m.Ret}} W.W{{$m.Name}}{{$m.Arg -}}", New: "\t\t\t{{- $m.Ret}} W.{{$m.Name}}{{$m.Arg -}}", Rule: "R18.3", Key: "model/wrapper-method"},
